@@ -105,6 +105,7 @@ def draw_ops(rng: random.Random, cfg, n_ops: int) -> list:
         op['eta'] = rng.choice([0.05, 0.0875, 0.175])
       elif kind == 'explicit_terms':
         op['moist'] = rng.random() < 0.4
+        op['vadv'] = rng.random() >= 0.25
       elif kind == 'step':
         op['eqn'] = rng.choice(['dry', 'dry', 'time', 'moist'])
         op['integrator'] = rng.choice(['backward_forward_euler', 'crank_nicolson_rk2',
@@ -202,13 +203,13 @@ class World:
                          tref=np.asarray(cfg['tref']))
     return self._model
 
-  def equation(self, world: str, eqn: str, method):
+  def equation(self, world: str, eqn: str, method, vadv=True):
     m = self.model()
     cls = {'dry': primitive_equations.PrimitiveEquations,
            'time': primitive_equations.PrimitiveEquationsWithTime,
            'moist': primitive_equations.MoistPrimitiveEquations}[eqn]
     return cls(m['tref'], m['oro_' + world], m['c_' + world], self.specs,
-               vertical_matmul_method=method)
+               vertical_matmul_method=method, include_vertical_advection=vadv)
 
 
 def get_world(cfg, mesh_factory=None) -> World:
@@ -452,8 +453,9 @@ def build_model_op(world: World, op):
     tr = ('specific_humidity',) if moist else ('q',)
     st = gen.make_pe_state(rs, gr, L, tracers=tr, with_time=moist,
                            uniform_tracer=('u', 1.5))
-    er = world.equation('ref', 'moist' if moist else 'dry', None)
-    es = world.equation('sh', 'moist' if moist else 'dry', None)
+    vadv = op.get('vadv', True)
+    er = world.equation('ref', 'moist' if moist else 'dry', None, vadv)
+    es = world.equation('sh', 'moist' if moist else 'dry', None, vadv)
     return er.explicit_terms, es.explicit_terms, [('modal', st)], 'modal'
   if name == 'sharding_constraints':
     st = gen.make_pe_state(rs, gr, L, tracers=('q',), with_time=True)
